@@ -22,7 +22,7 @@ def run_case(case, opts):
     # decimals: a result remembered from the first call shows in the second
     plan = [(case["digits"], case["exact"])]
     if case["digits"] < 5 and case["id"] % 2:
-        plan.append((6, case["exact"]))
+        plan.append((6, case["exact"] or (6 >= case.get("need", 99) and case["shape"] != "set+eq")))
     for d, exact in plan:
         ev.append(simplify_event(dom, act, case["how"], d, exact))
     return hist
